@@ -71,7 +71,8 @@ class ArrayGlobalVarDesc(MemoryDesc):
             fmt, addr = self.fmt_addr(instance)
             if fmt == "x":
                 fmt = "q"
-                value = int(value * Expression.FIXED_BASE)
+                # the float product may be just below the exact decimal
+                value = round(value * Expression.FIXED_BASE)
             if not isinstance(value, tuple):
                 value = value,
             b = pack(fmt, *value)
